@@ -656,7 +656,7 @@ fn prop_far(c: &(u8, u32), ctx: &Ctx) -> PResult {
 pub fn property() -> Property {
     Property {
         id: "C03",
-        rule: "random part: initial tree of 0..6 files + 0..3 dat files (plus the sqpack/<exp> directories in-place commands need); 1..3 patches applied in sequence, each = TargetInfo (platform in 5 as BE u16, region -1|1) then 0..12 chunks from FHDR v2/v3, APLY, ADIR, DELD, SQPK T/X/I/A/D/E/H/F(AddFile, DeleteFile, RemoveAll, MakeDirTree) over small id/path pools so that commands overlap, then EOF_; AddFile with 0..5 blocks each raw or deflated (stored/fixed/dynamic). exhaustive part: all sequences of length <= 2 (157; thorough <= 3: 1885) over a concrete 12-chunk alphabet. far-offsets part: AddData / DeleteData / ExpandData at block offsets 0x01FFFFFF, 0x02000000, 0x02000004, 0x04000010 and AddFile at the same byte offsets on a 640-byte target (sparse result; length, the written range, the old start and samples of the hole are compared by position). Oracle: in-memory file-system model of the reference semantics; after apply returns Ok the real tree is walked: regular files must match exactly (paths and bytes), directories as required <= actual <= allowed. Non-trivial: >= 2 effectful chunks touching one file, or a multi-block AddFile with a deflated block, or a chain of >= 2 patches; distinct by hash of the case.",
+        rule: "random part: initial tree of 0..6 files + 0..3 dat files (plus the sqpack/<exp> directories in-place commands need); 1..3 patches applied in sequence, each = TargetInfo (platform in 5 as BE u16, region -1|1) then 0..12 chunks from FHDR v2/v3, APLY, ADIR, DELD, SQPK T/X/I/A/D/E/H/F(AddFile, DeleteFile, RemoveAll, MakeDirTree) over small id/path pools so that commands overlap, then EOF_; AddFile with 0..5 blocks each raw or deflated (stored / several stored pieces / fixed / dynamic / several flushed blocks), one block in sixteen of 15 999..65 535 bytes; a quarter of the whole-file AddFile commands echoed later with a front part of their own content. exhaustive part: all sequences of length <= 2 (183; thorough <= 3: 2380) over a concrete 13-chunk alphabet. far-offsets part: AddData / DeleteData / ExpandData at block offsets 0x01FFFFFF, 0x02000000, 0x02000004, 0x04000010 and AddFile at the same byte offsets on a 640-byte target (sparse result; length, the written range, the old start and samples of the hole are compared by position). Oracle: in-memory file-system model of the reference semantics; after apply returns Ok the real tree is walked: regular files must match exactly (paths and bytes), directories as required <= actual <= allowed. Non-trivial: >= 2 effectful chunks touching one file, or a multi-block AddFile with a deflated block, or a chain of >= 2 patches; distinct by hash of the case.",
         assumptions: &["well-formed domain only: DeleteData after a RemoveAll of the same expansion is emitted as ExpandData; no file/directory name clashes; AddFile size = sum of blocks; block counts >= 1", "ADIR/DELD effects, the MakeDirTree leaf and the directory left behind by RemoveAll are not asserted (Physis documents them as no-ops; statement constrains files)", "no files under movie/<exp> or *.var files are generated (the reference's RemoveAll filter)"],
         pre: None,
         post: None,
